@@ -125,3 +125,17 @@ func (n *RaftNode) VFetch(lastApplied, start, end uint64) ([]byte, error) {
 	err := n.FetchSnapshot(&FetchSnapshotRequest{LastAppliedVersion: lastApplied, StartSeqNum: start, EndSeqNum: end}, st)
 	return st.buf, err
 }
+
+// VStateRoundTrip encodes and decodes the persisted FSM state (the value of the FSM state table entry).
+func VStateRoundTrip(index, version uint64) (uint64, uint64, error) {
+	st := &fsmState{Index: index, BalloonVersion: version}
+	b, err := st.encode()
+	if err != nil {
+		return 0, 0, err
+	}
+	var out fsmState
+	if err := out.decode(b); err != nil {
+		return 0, 0, err
+	}
+	return out.Index, out.BalloonVersion, nil
+}
